@@ -164,7 +164,7 @@ proof fn lemma_full_nat(bm: u128)
         forall|i: int| 0 <= i < total && i != seq ==> (#[trigger] ret.fragments@[i])@ == Seq::<u8>::empty(),
 //@ end
 
-//@ hint ReassembleQueue::new after `let bitmap = !0u128 << total | 1 << this;`
+//@ hint ReassembleQueue::new after `!0u128 << total`
         proof {
             lemma_bitmap_new(total as u128, this as u128);
             assert forall|i: nat| i < 128 implies ((bitmap & bit(i) != 0) <==> (i >= total || i == this)) by {
@@ -197,7 +197,7 @@ proof fn lemma_full_nat(bm: u128)
         },
 //@ end
 
-//@ hint ReassembleQueue::add_fragment before `return !self.bitmap == 0;`
+//@ hint ReassembleQueue::add_fragment before `!self.bitmap == 0`
             proof {
                 assert(bit(this as nat) == 1u128 << (this as u128));
                 lemma_set_bit_nat(old(self).bitmap, this as nat);
@@ -228,7 +228,7 @@ proof fn lemma_full_nat(bm: u128)
         ret@ == concat_prefix(self.pieces(), self.total()),
 //@ end
 
-//@ hint ReassembleQueue::assemble before `let mut buf = BytesMut::with_capacity(self.fragments.len() * self.fragments[0].len());`
+//@ hint ReassembleQueue::assemble before `BytesMut::with_capacity(`
         proof {
             assert(self.fragments@[0]@.len() <= MAX_DATAGRAM_SPEC);
             assert(self.fragments@.len() * self.fragments@[0]@.len() <= 127 * 65535) by (nonlinear_arith)
@@ -339,7 +339,7 @@ proof fn lemma_ceil_div_zero(size: nat)
         },
 //@ end
 
-//@ hint MakeFragments::next before `let data_len = self.buf.remaining().min(self.mtu - 4);`
+//@ hint MakeFragments::next before `self.buf.remaining().min(`
             proof {
                 lemma_ceil_div_step(self.buf.bview().len(), (self.mtu - 4) as nat);
                 if self.buf.bview().len() <= self.mtu - 4 {
